@@ -27,6 +27,7 @@ type Env struct {
 	inOld  bool
 	applyClo func(name string, args []Val, st *State) (Val, bool) // call(f, args): apply a closure argument
 	oldLocals bool // old() keeps resolving locals (call-site clauses: old = state before the call)
+	relL, relR *Env // relational clauses: environments of the two runs
 	loopPre *State // invariants: the state on entry to the loop, for entry(e)
 }
 
@@ -716,6 +717,32 @@ func (e *Env) call(x *SExpr) Val {
 			return v
 		}
 		return e.errorf("call(%s, ...): not a closure literal at this call site", x.Args[0].Name)
+	case "L", "R", "same":
+		if e.relL == nil || e.relR == nil || len(x.Args) != 1 {
+			return e.errorf("%s(e) is only available in relational clauses", x.Name)
+		}
+		switch x.Name {
+		case "L":
+			return e.relL.tr(x.Args[0])
+		case "R":
+			return e.relR.tr(x.Args[0])
+		}
+		a, b := e.relL.tr(x.Args[0]), e.relR.tr(x.Args[0])
+		return Val{T: tBool, S: e.equal(a, b)}
+	case "mapdom", "mapval":
+		// mapdom(m) / mapval(m): the key set / value table of map m as a whole (for equalities between runs)
+		v := e.tr(x.Args[0])
+		dom, val, _, scalarV := fc.mapArrs(v.T, v.S)
+		if dom == "" {
+			return e.errorf("%s: unsupported map type", x.Name)
+		}
+		if x.Name == "mapdom" {
+			return Val{T: types.NewArray(tBool, 0), S: sx("select", e.state.get(dom), v.S)}
+		}
+		if !scalarV {
+			return e.errorf("mapval: values of this map type are not modelled")
+		}
+		return Val{T: types.NewArray(tInt, 0), S: sx("select", e.state.get(val), v.S)}
 	case "entry":
 		// entry(e): value of e when the loop was entered (only in loop invariants)
 		if e.loopPre == nil {
